@@ -9,4 +9,5 @@ use std::mem::ManuallyDrop;
 use crate::model::{Float, Value, ValueType};
 
 pub mod common;
+pub mod shim;
 pub mod c16;
